@@ -73,30 +73,36 @@
 //	                                            serves fewer than the configured number); it is kept apart in its own class.
 //
 // Sensitivity. Mutations of the instrumented overlay copy of server.go, one at a time, 8 workers x <= 40 s
-// (all caught; "t" = wall seconds until the first / the slowest of the 8 workers reported, machine shared):
+// search each (all caught, by all 8 workers unless noted; "t" = seconds until the fastest .. the slowest worker
+// had found AND minimised (4 s cap) its first violation on a machine shared with other jobs; a few workers
+// needed 70-320 s more, spent in common.minimise copying long schedule tapes after its budget was exhausted):
 //
-//	dial although getDialData failed (error ignored)            amplification/dial-before-dial-data-complete   t 4..13
-//	readDialData returns after the first >=100 B message        amplification/dial-before-dial-data-complete   t 6..10
-//	policy compares the observed IP with itself (never data)    amplification/dial-without-dial-data-request   t 2..7
-//	policy inverted (data only for the same IP)                 amplification/dial-without-dial-data-request   t 3..10
-//	remain starts at numBytes/2                                 amplification/dial-before-dial-data-complete   t 8..20
-//	remain -= len(msg) (framing counted as dial data)           amplification/dial-before-dial-data-complete   t 13..29
-//	loop ends at remain > 1 (one byte fewer accepted)           amplification/dial-before-dial-data-complete   t 13..30
-//	every valid address of the request handed to the dialer     amplification/* , dial-to-unrequested-address  t 11..20
-//	cleanup drops one extra live global entry                   rejected-below-every-limit, rate-limit-exceeded/global   t 7..40
-//	tumbling instead of sliding window                          rate-limit-exceeded/global, /per-peer          t 14..20
-//	cleanup drops one extra live per-peer entry                 rate-limit-exceeded/per-peer                   t 14..29
-//	cleanup drops one extra live dial-data entry                rate-limit-exceeded/dial-data                  t 11..35
-//	window of 50 s                                              rate-limit-exceeded/global, /per-peer          t 17..32
-//	global / per-peer / dial-data limit off by one (> for >=)   rate-limit-exceeded/<the limit>                t 1..18
-//	dial-data limiter not consulted                             rate-limit-exceeded/dial-data                  t 10..49
-//	concurrent limit off by one (> for >=)                      concurrent-requests-exceeded                   t 5..9
-//	inProgressReqs never incremented                            concurrent-requests-exceeded                   t 8..14
-//	CompleteRequest never called                                rejected-below-every-limit                     t 8..14
-//	private addresses not skipped                               dial-to-ineligible-address, no-eligible-address-not-refused   t 11..38
-//	CanDial not consulted                                       no-eligible-address-not-refused                t 16..53
-//	NumBytes = 100 + rand (below 30000)                         dial-data-request-out-of-range                 t 5..13
-//	dial-back carries the previous request's nonce              dial-back-stream-to-other-peer/client          t 4..32
+//	dial although getDialData failed (error ignored)            amplification/dial-before-dial-data-complete   t 11..23
+//	readDialData returns after the first >=100 B message        amplification/dial-before-dial-data-complete   t 7..13
+//	policy compares the observed IP with itself (never data)    amplification/dial-without-dial-data-request   t 3..7
+//	policy inverted (data only for the same IP)                 amplification/dial-without-dial-data-request   t 2..15
+//	remain starts at numBytes/2                                 amplification/dial-before-dial-data-complete   t 5..10
+//	remain -= len(msg) (framing counted as dial data)           amplification/dial-before-dial-data-complete   t 5..13
+//	loop ends at remain > 1 (one byte fewer accepted)           amplification/dial-before-dial-data-complete   t 6..19
+//	every valid address of the request handed to the dialer     amplification/*, dial-to-unrequested-address   t 4..16
+//	cleanup drops one extra live global entry                   rejected-below-every-limit, rate-limit-exceeded/global   t 10..23
+//	tumbling instead of sliding window                          rate-limit-exceeded/per-peer, /global          t 10..24
+//	cleanup drops one extra live per-peer entry                 rate-limit-exceeded/per-peer                   t 8..22
+//	cleanup drops one extra live dial-data entry                rate-limit-exceeded/dial-data                  t 9..28
+//	window of 50 s                                              rate-limit-exceeded/global, /per-peer          t 6..19
+//	global limit off by one (> for >=)                          rate-limit-exceeded/global                     t 1..5
+//	per-peer limit off by one                                   rate-limit-exceeded/per-peer                   t 2..12
+//	dial-data limit off by one                                  rate-limit-exceeded/dial-data                  t 9..20
+//	dial-data limiter not consulted                             rate-limit-exceeded/dial-data                  t 8..16
+//	concurrent limit off by one                                 concurrent-requests-exceeded                   t 11..25
+//	inProgressReqs never incremented                            concurrent-requests-exceeded                   t 11..28
+//	CompleteRequest never called                                rejected-below-every-limit                     t 4..13
+//	private addresses not skipped                               dial-to-ineligible-address, no-eligible-address-not-refused   t 6..38
+//	CanDial not consulted                                       no-eligible-address-not-refused                t 6..45
+//	NumBytes = 100 + rand (below 30000)                         dial-data-request-out-of-range                 t 5..11
+//	dial-back carries the previous request's nonce              dial-back-stream-to-other-peer/client          t 6..15 (6 of 8 workers)
+//
+// Unchanged tree: 0 violations over 15959 runs (seed 1) + 7330 runs (seed 77) + the quick tier; ./check selftest identical.
 //
 // Observations on the unchanged tree (none is a violation of the statement for the shipped configuration; recorded
 // for DESIGN.md by the lead):
